@@ -3,16 +3,15 @@ from lib import core, propgen
 from harness.oracles import all as ALL
 
 ID = 'C08'
-UNITS = ['event_metrics', 'transcription_scores', 'seg_cluster_q', 'index_labels', 'multipitch_metrics', 'pattern_scores', 'tempo_detection', 'alignment_scores', 'beat_q', 'beat_ig']
+UNITS = ['event_metrics', 'transcription_scores', 'seg_cluster_q', 'index_labels', 'multipitch_metrics', 'pattern_scores', 'tempo_detection', 'alignment_scores', 'beat_q', 'beat_ig', 'seg_entropy_num']
 TRANSLATORS = []
-NOT_COVERED = 'Rational shifts on the exact lattice (float rounding of shifted times is outside the model); AMI under relabelling is covered by the oracle only.'
+NOT_COVERED = 'Rational shifts on the exact lattice (float rounding of shifted times is outside the model); MI / AMI under relabelling are Reals theorems tied numerically inside Coq (seg_entropy_num).'
 ASSUMPTIONS = ['exact-arithmetic lattices for the correspondence (DESIGN.md section 2.1); NumPy/SciPy primitives as modelled per module']
 
 oracle_search = propgen.budgeted([ALL.for_property(ID)])
 
 
-def oracle_at(unit, case, impl):
-    return None
+oracle_at = propgen.point_oracle(ID)      # the property's point checks at and around the mismatching input (harness/oracles/at_point.py)
 
 
 def diagnose(b):
